@@ -64,10 +64,7 @@ def clause_a(ctx, P):
     # --- next_ip_check
     run = P.one("Zeroconf::run")
     rtr = tracer(P, run)
-    nic = None
-    for l, d in enumerate(run.locals):
-        if d.get("name") == "next_ip_check":
-            nic = l
+    nic = _ip_check_local(P, run)
     ctx.require(nic is not None, "C12a.anchor", run.name + "|next_ip_check", run.loc(), "local next_ip_check found")
     if nic is not None:
         k = 0
@@ -137,6 +134,29 @@ def _switch_reads_local(fn, bb, l):
 
 def _unavoidable_from_pos(fn, b, pushes, bypass):
     return _unavoidable(fn, b, pushes, bypass=bypass, include_loop_head=True)
+
+
+def _ip_check_local(P, run, _c={}):
+    """the user variable of `run` that holds the next interface-check time: the one assigned from an expression
+    over Zeroconf.ip_check_interval (falls back to the name next_ip_check)"""
+    k = (id(P), run.name)
+    if k not in _c:
+        tr = tracer(P, run)
+        cands = {}
+        for b, i, s in run.assigns():
+            l = s["p"]["l"]
+            if s["p"]["proj"] or not run.locals[l].get("name"):
+                continue
+            e = tr.rvalue(s["r"], (b, i))
+            if expr_mentions_field(e, "ip_check_interval", "Zeroconf") and not (e[0] == "field" and e[2] == "ip_check_interval"):
+                cands[l] = cands.get(l, 0) + 1
+        res = max(cands, key=cands.get) if cands else None
+        if res is None:
+            for l, d in enumerate(run.locals):
+                if d.get("name") == "next_ip_check":
+                    res = l
+        _c[k] = res
+    return _c[k]
 
 
 def _check_local_carriers(ctx, P):
@@ -546,7 +566,7 @@ def clause_c(ctx, P):
     main = max(loops, key=lambda h: len(loops[h]))
     k = 0
     for b, i, s in run.assigns():
-        if not s["p"]["proj"] and run.locals[s["p"]["l"]].get("name") == "next_ip_check" and b in loops[main]:
+        if not s["p"]["proj"] and s["p"]["l"] == _ip_check_local(P, run) and b in loops[main]:
             k += 1
             val = rtr.rvalue(s["r"], (b, i))
             ok, why = _ip_check_positive(P, run, b, val)
